@@ -9,6 +9,8 @@ composite member (every nesting depth).
 Round 3 (harness/c05_strata.py, notes/C05.md): member inputs that are distinct but ==/hash-equal inside one
 composite value, and call histories on one cached routine (no cache cleared between the calls), in the
 correspondence and in the oracle; Props/C05.v states what the model says about histories.
+Round 4 (harness/c05_modules.py): one class environment spread over two / three synthesised modules that use the
+SAME class names, every pair of revisit shapes (cycle / diamond / once), reached from one root.
 """
 from __future__ import annotations
 
@@ -17,6 +19,7 @@ import random
 import warnings
 
 import bridgetie
+import c05_modules
 import c05_strata
 import coregen
 import coremodel
@@ -103,7 +106,11 @@ def correspond(run: lib.Run):
     # round 3: ==-equal member inputs inside one composite, and call histories on one cached routine (c05_strata)
     eq_groups, plans, eq_dist = c05_strata.generate(run)
     run._c05_plans = (eq_groups, plans)
-    groups = groups + eq_groups
+    # round 4: same class names in two / three modules x every revisit shape, in one graph (c05_modules)
+    mm_groups, mm_records, mm_dist = c05_modules.generate(run)
+    run._c05_mm = (mm_groups, mm_records)
+    n_random = len(groups)
+    groups = groups + eq_groups + mm_groups
     problems = []
     for g in groups:
         for t in g.pytys:
@@ -113,21 +120,24 @@ def correspond(run: lib.Run):
     bs, bm, ba = coremodel.evaluate_groups_mech(run, groups, "c05", per_file=6)
     ncases = sum(len(g.cases) for g in groups)
     distinct = len({(g.env["module"], c[0], c[1], c[2]) for g in groups for c in g.cases})
-    dist = {"groups": len(groups), "cyclic_groups": sum(1 for i in range(len(groups) - len(eq_groups)) if i % 3 == 2),
+    dist = {"groups": len(groups), "cyclic_groups": sum(1 for i in range(n_random) if i % 3 == 2),
             "orders": sum(len(g.orders["u"]) for g in groups),
             "observed_raise": sum(1 for g in groups for c in g.cases if "Raise" in c[3]),
-            "random_stream_cases": sum(len(g.cases) for g in groups[:len(groups) - len(eq_groups)]),
+            "random_stream_cases": sum(len(g.cases) for g in groups[:n_random]),
             "equal_member_and_history_cases": sum(len(g.cases) for g in eq_groups),
-            "equal_member_strata": eq_dist}
+            "equal_member_strata": eq_dist,
+            "same_names_in_several_modules_cases": sum(len(g.cases) for g in mm_groups),
+            "same_names_in_several_modules": mm_dist}
     run.record_corr("reference-semantics-vs-implementation", ncases, [g.cases[i][4] for g, i in bs], distinct, dist)
     run.record_corr("mechanism-on-observed-order-vs-implementation", ncases, [g.cases[i][4] for g, i in bm], distinct, dist)
     run.record_corr("mechanism-vs-reference-semantics", ncases, [g.cases[i][4] for g, i in ba], distinct, dist)
     run._c05_bad = bs + bm + ba
     # one module, two descriptions: the hypotheses of graph_orders (Props/C05Bridge.v) are decided on every
     # observed order that lies in the translated fragment (notes/bridge.md); tie:order_ok above stays as a cross-check
-    bridgetie.bridge_obligations(run, groups, "c05")
+    # (bridgetie describes ONE module per group: the multi-module groups are not in its fragment)
+    bridgetie.bridge_obligations(run, groups[:len(groups) - len(mm_groups)], "c05")
     # the head-constructor dispatch Build.construct assumes IS the first-match dispatch over the live _HANDLERS tables (dyn/Dispatch)
-    lib.run_tie(run, dispatchtie, streams=False, core=True, groups=groups[:len(groups) - len(eq_groups)], tag="c05")
+    lib.run_tie(run, dispatchtie, streams=False, core=True, groups=groups[:len(groups) - len(eq_groups)][:run.budget(40, 80)], tag="c05")
     lib.run_tie(run, iotie, streams=False)
     if groups and groups[0].cases:
         run.samples.append(groups[0].cases[0][4])
@@ -249,6 +259,8 @@ def _failure(g, direction, d, srcs, step, x, obs, expected, symptom, extra=None)
          "expected": repr(expected[1])[:400] if expected[0] == "ok" else expected[1],
          "module_source": g.src, "env": _env_json(g.env),
          "key": json.dumps(["C05", direction, repr(d)[:200], srcs and [s[:120] for s in srcs], repr(x)[:200]])}
+    if hasattr(g, "spec"):          # several modules: the replay rebuilds the whole module set
+        f["modules"] = c05_modules.spec_json(g, [d])
     f.update(extra or {})
     return f
 
@@ -483,6 +495,15 @@ def search(run: lib.Run, broken):
                       {"member": p.member, "family": p.family, "shape": p.shape, "history_kind": p.kind})
         if len(fails) > 60:
             break
+    mm_groups, mm_records = getattr(run, "_c05_mm", (None, None))
+    if mm_groups is None:
+        mm_groups, mm_records, _ = c05_modules.generate(run)
+    mstats = {"evaluations": 0, "nontrivial": 0}
+    for rec in mm_records:
+        check_record(rec, fails, mstats, deep=True)
+        sources_alike(rec, fails, mstats)
+        if len(fails) > 80:
+            break
     thorough = bool(broken) or run.tier == "thorough"
     limit = len(records) if thorough else min(len(records), 250)
     stats["level_cap"] = 10 ** 9 if broken else (30000 if thorough else 2500)     # nested levels read per run
@@ -513,6 +534,15 @@ def search(run: lib.Run, broken):
                 "(caches cleared), same class at every position incl. mapping keys, sign of zero and Decimal exponent; "
                 "then every nested composite member likewise; both directions",
     }
+    run.search_stats["oracle-same-names-in-several-modules"] = {
+        "evaluations": mstats["evaluations"], "distinct_nontrivial": mstats["nontrivial"], "records": len(mm_records),
+        "nested_levels": mstats.get("nested_levels", 0),
+        "rule": "c05_modules: classes with the same qualified name (and field names) in two / three modules, every pair of "
+                "revisit shapes (self-reference through Optional / list / dict, mutual recursion, diamond, met once), "
+                "reached from one root (holder class in the main or in the last module, tuple, list of reversed tuples, "
+                "mapping to their union); result vs the composite rebuilt from members converted by an independent API "
+                "call on the member's OWN class, at every nesting depth; source shapes alike",
+    }
     # keep the smallest failure per symptom
     best = {}
     for f in fails:
@@ -522,6 +552,7 @@ def search(run: lib.Run, broken):
             best[k] = (size, f)
     coreprop.close(groups)
     coreprop.close(eq_groups)
+    coreprop.close(mm_groups)
     return [v[1] for v in best.values()]
 
 
@@ -542,10 +573,13 @@ def corpus():
 def replay(payload):
     if "env" not in payload or "tdesc" not in payload:
         return {"fails": False, "note": "replay needs env + tdesc"}
-    env = {"module": payload["env"]["module"].split("_replay")[0] + "_replay",
-           "defs": {(int(k) if k.isdigit() else k): _tup(v) for k, v in payload["env"]["defs"].items()}}
-    roots = [_tup(payload["tdesc"])]
-    g = coremodel.Group(env, roots, coreprop.suppressed())
+    if payload.get("modules"):
+        g = c05_modules.rebuild(payload["modules"])
+    else:
+        env = {"module": payload["env"]["module"].split("_replay")[0] + "_replay",
+               "defs": {(int(k) if k.isdigit() else k): _tup(v) for k, v in payload["env"]["defs"].items()}}
+        roots = [_tup(payload["tdesc"])]
+        g = coremodel.Group(env, roots, coreprop.suppressed())
     fails, stats = [], {"evaluations": 0, "nontrivial": 0}
     try:
         if payload.get("history"):
